@@ -105,6 +105,14 @@ type gen struct {
 	holderF map[string]bool
 	holderP map[string]bool
 	structK string
+	hide    map[string]bool // variables that must not be read right now
+	avoid   avoid
+}
+
+// input classes of known findings the generator stays away from while they reproduce on the tree under test
+type avoid struct {
+	NamedReturn bool // `return e1, e2` reading a named result in e2 (fast/statement.go Comp.Return assigns sequentially)
+	AddrComplex bool // &x with x complex128 (fast/util.go funAsX1 has no *complex128 case)
 }
 
 func (g *gen) name(p string) string { g.nid++; return fmt.Sprintf("%s%s%d", g.pfx, p, g.nid) }
@@ -163,7 +171,7 @@ func (g *gen) varsOf(typ string) []*vr {
 	var out []*vr
 	for _, s := range g.scopes {
 		for _, v := range s.vars {
-			if v.typ == typ {
+			if v.typ == typ && !g.hide[v.name] {
 				out = append(out, v)
 			}
 		}
@@ -358,6 +366,9 @@ func (g *gen) stmt() {
 		case x < 8: // address of a variable
 			if declOK {
 				k := g.kind()
+				if k == "complex128" && g.avoid.AddrComplex {
+					continue
+				}
 				if v := g.pickVar(k); v != nil {
 					p := g.name("p")
 					g.line("%s := &%s", p, v.name)
@@ -688,6 +699,16 @@ func (g *gen) closure() {
 	}
 }
 
+// hideNamed: while the known finding reproduces, the operands of `return e1, e2, ...` do not read named results
+func (g *gen) hideNamed(f *fnctx) {
+	if g.avoid.NamedReturn && len(f.named) > 1 {
+		g.hide = map[string]bool{}
+		for _, n := range f.named {
+			g.hide[n] = true
+		}
+	}
+}
+
 func (g *gen) litDepth() int {
 	n := 0
 	for f := g.fn; f != nil; f = f.outer {
@@ -722,10 +743,12 @@ func (g *gen) earlyReturn() {
 	if len(f.named) > 0 && g.r.Bool() {
 		g.line("return")
 	} else {
+		g.hideNamed(f)
 		var es []string
 		for _, t := range f.results {
 			es = append(es, g.expr(t, 1))
 		}
+		g.hide = nil
 		g.line("return %s", strings.Join(es, ", "))
 	}
 	g.ind--
@@ -804,6 +827,9 @@ func (g *gen) resultType() string {
 	case 0, 1:
 		return "func() " + k
 	case 2:
+		if k == "complex128" && g.avoid.AddrComplex {
+			return k
+		}
 		return "*" + k
 	}
 	return k
@@ -988,9 +1014,14 @@ func (g *gen) topFunc(leaf bool) {
 		g.line("return")
 		g.feat("named_results_bare_return")
 	} else {
+		g.hideNamed(g.fn)
 		var vs []string
 		for _, t := range f.results {
 			vs = append(vs, g.valueOf(t))
+		}
+		g.hide = nil
+		if len(g.fn.named) > 1 {
+			g.feat("named_results_return_values")
 		}
 		g.ev(evRet, f.id)
 		g.line("return %s", strings.Join(vs, ", "))
@@ -1124,8 +1155,8 @@ func (g *gen) structType() {
 	}
 }
 
-func genProgram(r *vh.Rng, idx int) *program {
-	g := &gen{r: r, pfx: fmt.Sprintf("P%d_", idx), prog: &program{Scopes: map[int]scopeInfo{}, Funs: map[int]funInfo{}, Feat: map[string]int{}}}
+func genProgram(r *vh.Rng, idx int, av avoid) *program {
+	g := &gen{avoid: av, r: r, pfx: fmt.Sprintf("P%d_", idx), prog: &program{Scopes: map[int]scopeInfo{}, Funs: map[int]funInfo{}, Feat: map[string]int{}}}
 	// kinds: int plus 1..3 others
 	g.kinds = []string{"int"}
 	for len(g.kinds) < 2+r.Intn(3) {
